@@ -939,3 +939,408 @@ Proof.
   cbn [negb]. unfold pep_interp_all. rewrite Hl, Nat.eqb_refl, Ec. cbn [negb]. f_equal. symmetry.
   apply pep_take_map. exact Hidx.
 Qed.
+
+(* ====================== sorting, un-sorting ====================== *)
+Definition pep_kle {A} (a b : Z * A) : Prop := (fst a <= fst b)%Z.
+
+Lemma pep_insert_perm {A} (x : Z * A) l : Permutation (pep_insert x l) (x :: l).
+Proof.
+  induction l as [|y l IH]; simpl; [reflexivity|].
+  destruct (fst x <=? fst y)%Z; [reflexivity|]. rewrite IH. apply perm_swap.
+Qed.
+
+Lemma pep_sort_perm {A} (l : list (Z * A)) : Permutation (pep_sort l) l.
+Proof.
+  induction l as [|x l IH]; simpl; [reflexivity|]. rewrite pep_insert_perm. constructor. exact IH.
+Qed.
+
+Lemma pep_insert_sorted {A} (x : Z * A) l : StronglySorted pep_kle l -> StronglySorted pep_kle (pep_insert x l).
+Proof.
+  induction l as [|y l IH]; simpl; intros H; [constructor; constructor|].
+  inversion H as [|? ? Hs Hf]; subst.
+  destruct (Z.leb_spec (fst x) (fst y)) as [Hle|Hgt].
+  - constructor; [exact H|]. constructor; [exact Hle|].
+    eapply Forall_impl; [|exact Hf]. intros z Hz. unfold pep_kle in *. lia.
+  - constructor; [apply IH; exact Hs|].
+    assert (Forall (pep_kle y) (x :: l)) as Hf' by (constructor; [unfold pep_kle; lia | exact Hf]).
+    eapply Permutation_Forall; [|exact Hf']. symmetry. apply pep_insert_perm.
+Qed.
+
+Lemma pep_sort_sorted {A} (l : list (Z * A)) : StronglySorted pep_kle (pep_sort l).
+Proof. induction l as [|x l IH]; simpl; [constructor | apply pep_insert_sorted; exact IH]. Qed.
+
+(* a stable sort leaves sorted input alone *)
+Lemma pep_sort_id {A} (l : list (Z * A)) : StronglySorted pep_kle l -> pep_sort l = l.
+Proof.
+  intros H. induction H as [|a l Hs IH Hf]; [reflexivity|]. simpl. rewrite IH.
+  destruct l as [|y t]; [reflexivity|]. simpl.
+  inversion Hf as [|? ? Hay _]; subst. unfold pep_kle in Hay.
+  destruct (Z.leb_spec (fst a) (fst y)); [reflexivity | lia].
+Qed.
+
+Lemma pep_sorted_perm_eq (l1 : list Z) : forall l2,
+  StronglySorted Z.le l1 -> StronglySorted Z.le l2 -> Permutation l1 l2 -> l1 = l2.
+Proof.
+  induction l1 as [|a l1 IH]; intros l2 H1 H2 HP.
+  - apply Permutation_nil in HP. symmetry. exact HP.
+  - destruct l2 as [|b l2]; [apply Permutation_sym, Permutation_nil in HP; discriminate|].
+    apply StronglySorted_inv in H1. destruct H1 as [H1 F1].
+    apply StronglySorted_inv in H2. destruct H2 as [H2 F2].
+    rewrite Forall_forall in F1, F2.
+    assert (a = b) as ->.
+    { assert (In b (a :: l1)) as Hb by (apply (Permutation_in _ (Permutation_sym HP)); left; reflexivity).
+      assert (In a (b :: l2)) as Ha by (apply (Permutation_in _ HP); left; reflexivity).
+      destruct Hb as [Hb|Hb]; [exact Hb|]. destruct Ha as [Ha|Ha]; [symmetry; exact Ha|].
+      specialize (F1 _ Hb). specialize (F2 _ Ha). lia. }
+    f_equal. apply IH; [exact H1 | exact H2 | eapply Permutation_cons_inv; exact HP].
+Qed.
+
+Lemma pep_zseq_length n : forall s, length (pep_zseq s n) = n.
+Proof. induction n as [|n IH]; intros s; simpl; [reflexivity|]. rewrite IH. reflexivity. Qed.
+
+Lemma pep_zseq_nth n : forall s k, (k < n)%nat -> nth k (pep_zseq s n) 0%Z = (s + Z.of_nat k)%Z.
+Proof.
+  induction n as [|n IH]; intros s k Hk; [lia|]. destruct k as [|k]; simpl; [lia|].
+  rewrite IH by lia. lia.
+Qed.
+
+Lemma pep_zseq_in n : forall s z, In z (pep_zseq s n) -> (s <= z < s + Z.of_nat n)%Z.
+Proof.
+  induction n as [|n IH]; intros s z H; [destruct H|]. destruct H as [<-|H]; [lia|].
+  apply IH in H. lia.
+Qed.
+
+Lemma pep_zseq_sorted n : forall s, StronglySorted Z.lt (pep_zseq s n).
+Proof.
+  induction n as [|n IH]; intros s; simpl; [constructor|]. constructor; [apply IH|].
+  rewrite Forall_forall. intros z Hz. apply pep_zseq_in in Hz. lia.
+Qed.
+
+Lemma pep_zseq_sorted_le n s : StronglySorted Z.le (pep_zseq s n).
+Proof. eapply pep_ss_impl; [|apply pep_zseq_sorted]. intros a b. lia. Qed.
+
+Lemma pep_map_fst_combine {A B} (a : list A) (b : list B) : length a = length b -> map fst (combine a b) = a.
+Proof. revert b; induction a as [|x a IH]; intros [|y b] H; simpl in *; try lia; [reflexivity|]. rewrite IH by lia. reflexivity. Qed.
+
+Lemma pep_map_snd_combine {A B} (a : list A) (b : list B) : length a = length b -> map snd (combine a b) = b.
+Proof. revert b; induction a as [|x a IH]; intros [|y b] H; simpl in *; try lia; [reflexivity|]. rewrite IH by lia. reflexivity. Qed.
+
+Lemma pep_combine_sorted {A} (keys : list Z) (b : list A) :
+  StronglySorted Z.le keys -> StronglySorted pep_kle (combine keys b).
+Proof.
+  intros H. revert b. induction H as [|k keys Hs IH Hf]; intros b; [constructor|].
+  destruct b as [|y b]; [constructor|]. simpl. constructor; [apply IH|].
+  rewrite Forall_forall in *. intros [k' y'] Hin. apply in_combine_l in Hin. unfold pep_kle. simpl. apply Hf, Hin.
+Qed.
+
+(* out[idx] = vals puts the p-th value at position idx[p] *)
+Lemma pep_scatter_spec idx vals n :
+  Permutation idx (pep_zseq 0 n) -> length vals = n ->
+  length (pep_scatter idx vals) = n /\
+  forall p, (p < n)%nat -> nth (Z.to_nat (nth p idx 0%Z)) (pep_scatter idx vals) 0 = nth p vals 0.
+Proof.
+  intros HP Hv.
+  assert (length idx = n) as Hi by (rewrite (Permutation_length HP); apply pep_zseq_length).
+  unfold pep_scatter. set (S := pep_sort (combine idx vals)).
+  assert (Permutation S (combine idx vals)) as HS by apply pep_sort_perm.
+  assert (length S = n) as HSl by (rewrite (Permutation_length HS), combine_length, Hi, Hv; apply Nat.min_id).
+  assert (map fst S = pep_zseq 0 n) as Hfst.
+  { apply pep_sorted_perm_eq.
+    - apply (pep_ss_map pep_kle Z.le fst); [intros a b H; exact H | apply pep_sort_sorted].
+    - apply pep_zseq_sorted_le.
+    - rewrite (Permutation_map fst HS), pep_map_fst_combine by lia. exact HP. }
+  split; [rewrite map_length; exact HSl|].
+  intros p Hp.
+  assert (In (nth p idx 0%Z, nth p vals 0) S) as Hin.
+  { apply (Permutation_in _ (Permutation_sym HS)). rewrite <- combine_nth by lia.
+    apply nth_In. rewrite combine_length, Hi, Hv, Nat.min_id. exact Hp. }
+  destruct (In_nth _ _ (0%Z, 0) Hin) as (r & Hr & Er).
+  assert (nth r (map fst S) 0%Z = nth p idx 0%Z) as E1.
+  { change 0%Z with (fst (0%Z, 0)) at 1. rewrite map_nth, Er. reflexivity. }
+  rewrite Hfst, pep_zseq_nth in E1 by lia.
+  rewrite <- E1. replace (Z.to_nat (0 + Z.of_nat r)) with r by lia.
+  change 0 with (snd (0%Z, 0)) at 1. rewrite map_nth, Er. reflexivity.
+Qed.
+
+(* ====================== peps_from_scores(..., "qvality") ====================== *)
+(* the scores in descending order *)
+Definition pep_sorted_desc (scores : list Z) : list Z := map (fun r => (- fst r)%Z) (pep_desc_order scores).
+
+(* v is the largest f-value among the scores at least as good as s *)
+Definition pep_is_sup (f : Z -> Q) (scores : list Z) (s : Z) (v : Q) : Prop :=
+  (forall s', In s' scores -> (s <= s')%Z -> f s' <= v) /\
+  (exists s', In s' scores /\ (s <= s')%Z /\ v = f s').
+
+Lemma pep_is_sup_unique f scores s v w : pep_is_sup f scores s v -> pep_is_sup f scores s w -> v == w.
+Proof.
+  intros (Hv & sv & Iv & Lv & Ev) (Hw & sw & Iw & Lw & Ew). apply Qle_antisym.
+  - rewrite Ev. apply Hw; assumption.
+  - rewrite Ew. apply Hv; assumption.
+Qed.
+
+Lemma pep_is_sup_perm f scores scores' s v : Permutation scores scores' -> pep_is_sup f scores s v -> pep_is_sup f scores' s v.
+Proof.
+  intros HP (Hv & sv & Iv & Lv & Ev). split.
+  - intros s' Hs'. apply Hv. apply (Permutation_in _ (Permutation_sym HP)). exact Hs'.
+  - exists sv. repeat split; try assumption. apply (Permutation_in _ HP). exact Iv.
+Qed.
+
+Lemma pep_is_sup_antitone f scores s1 s2 v1 v2 :
+  pep_is_sup f scores s1 v1 -> pep_is_sup f scores s2 v2 -> (s1 <= s2)%Z -> v2 <= v1.
+Proof.
+  intros (H1 & _) (_ & s' & I' & L' & ->) Hs. apply H1; [exact I' | lia].
+Qed.
+
+Section DescOrder.
+Variable scores : list Z.
+Let n := length scores.
+Let rows := combine (map Z.opp scores) (pep_zseq 0 n).
+Let srt := pep_desc_order scores.
+
+Lemma pep_rows_nth i : (i < n)%nat -> nth i rows (0%Z, 0%Z) = ((- nth i scores 0)%Z, Z.of_nat i).
+Proof.
+  intros Hi. unfold rows. rewrite combine_nth by (rewrite map_length, pep_zseq_length; reflexivity).
+  rewrite pep_zseq_nth by exact Hi. f_equal.
+  change 0%Z with (- 0)%Z at 1. apply map_nth.
+Qed.
+
+Lemma pep_rows_length : length rows = n.
+Proof. unfold rows. rewrite combine_length, map_length, pep_zseq_length. apply Nat.min_id. Qed.
+
+Lemma pep_srt_perm : Permutation srt rows.
+Proof. apply pep_sort_perm. Qed.
+
+Lemma pep_srt_length : length srt = n.
+Proof. rewrite (Permutation_length pep_srt_perm). apply pep_rows_length. Qed.
+
+Lemma pep_srt_sorted : StronglySorted pep_kle srt.
+Proof. apply pep_sort_sorted. Qed.
+
+Lemma pep_srt_idx_perm : Permutation (map snd srt) (pep_zseq 0 n).
+Proof.
+  rewrite (Permutation_map snd pep_srt_perm). unfold rows.
+  rewrite pep_map_snd_combine by (rewrite map_length, pep_zseq_length; reflexivity). reflexivity.
+Qed.
+
+(* every sorted position holds some input row *)
+Lemma pep_srt_row p : (p < n)%nat ->
+  exists i, (i < n)%nat /\ nth p srt (0%Z, 0%Z) = ((- nth i scores 0)%Z, Z.of_nat i).
+Proof.
+  intros Hp. assert (In (nth p srt (0%Z, 0%Z)) rows) as Hin.
+  { apply (Permutation_in _ pep_srt_perm). apply nth_In. rewrite pep_srt_length. exact Hp. }
+  destruct (In_nth _ _ (0%Z, 0%Z) Hin) as (i & Hi & Ei). rewrite pep_rows_length in Hi.
+  exists i. split; [exact Hi|]. rewrite <- Ei. apply pep_rows_nth. exact Hi.
+Qed.
+
+(* every input row sits at some sorted position *)
+Lemma pep_srt_pos i : (i < n)%nat ->
+  exists p, (p < n)%nat /\ nth p srt (0%Z, 0%Z) = ((- nth i scores 0)%Z, Z.of_nat i).
+Proof.
+  intros Hi. assert (In ((- nth i scores 0)%Z, Z.of_nat i) srt) as Hin.
+  { apply (Permutation_in _ (Permutation_sym pep_srt_perm)). rewrite <- pep_rows_nth by exact Hi.
+    apply nth_In. rewrite pep_rows_length. exact Hi. }
+  destruct (In_nth _ _ (0%Z, 0%Z) Hin) as (p & Hp & Ep). rewrite pep_srt_length in Hp.
+  exists p. split; [exact Hp | exact Ep].
+Qed.
+
+Lemma pep_sorted_desc_spec :
+  Permutation (pep_sorted_desc scores) scores /\ StronglySorted (fun a b => (b <= a)%Z) (pep_sorted_desc scores).
+Proof.
+  unfold pep_sorted_desc. fold srt. split.
+  - rewrite (Permutation_map (fun r => (- fst r)%Z) pep_srt_perm). unfold rows.
+    rewrite <- (map_map fst Z.opp), pep_map_fst_combine by (rewrite map_length, pep_zseq_length; reflexivity).
+    rewrite map_map. rewrite (map_ext _ (fun x => x)) by (intros; lia). rewrite map_id. reflexivity.
+  - apply (pep_ss_map pep_kle (fun a b => (b <= a)%Z) (fun r : Z * Z => (- fst r)%Z)); [|apply pep_srt_sorted].
+    intros a b H. unfold pep_kle in H. lia.
+Qed.
+
+Variables (targets : list bool) (fs : list Q) (ps : list Q).
+Hypothesis Hrun : pep_qvality scores targets fs = Ok ps.
+
+Lemma pep_qvality_lengths : length targets = n /\ length fs = n /\
+  ps = pep_scatter (map snd srt) (pep_qvality_sorted_order fs).
+Proof.
+  unfold pep_qvality in Hrun.
+  destruct (pep_same_length scores targets) eqn:E1; [|discriminate].
+  destruct (pep_same_length scores fs) eqn:E2; [|discriminate]. cbn [negb] in Hrun.
+  apply pep_same_length_true in E1, E2. repeat split; [symmetry; exact E1 | symmetry; exact E2 |].
+  unfold srt. injection Hrun as E. symmetry. exact E.
+Qed.
+
+Lemma pep_vals_length : length (pep_qvality_sorted_order fs) = n.
+Proof.
+  destruct pep_qvality_lengths as (_ & Hf & _).
+  unfold pep_qvality_sorted_order, pep_qvality_monotonize. rewrite map_length, pep_monotonize_simple_length. exact Hf.
+Qed.
+
+Lemma pep_qvality_out_length : length ps = n.
+Proof.
+  destruct pep_qvality_lengths as (_ & _ & E). rewrite E.
+  apply (pep_scatter_spec _ _ n pep_srt_idx_perm pep_vals_length).
+Qed.
+
+(* the value of input row i is the value computed at its sorted position *)
+Lemma pep_qvality_position i : (i < n)%nat ->
+  exists p, (p < n)%nat /\ nth p srt (0%Z, 0%Z) = ((- nth i scores 0)%Z, Z.of_nat i) /\
+            nth i ps 0 = nth p (pep_qvality_sorted_order fs) 0.
+Proof.
+  intros Hi. destruct (pep_srt_pos i Hi) as (p & Hp & Ep). exists p. split; [exact Hp|]. split; [exact Ep|].
+  destruct pep_qvality_lengths as (_ & _ & E). rewrite E.
+  destruct (pep_scatter_spec _ _ n pep_srt_idx_perm pep_vals_length) as [_ Hsc].
+  rewrite <- (Hsc p Hp).
+  change 0%Z with (snd (0%Z, 0%Z)) at 2. rewrite map_nth, Ep. simpl snd. rewrite Nat2Z.id. reflexivity.
+Qed.
+
+Variable f : Z -> Q.
+Hypothesis Hf : fs = map f (pep_sorted_desc scores).
+
+Lemma pep_fs_nth q : (q < n)%nat -> nth q fs 0 = f (- fst (nth q srt (0%Z, 0%Z)))%Z.
+Proof.
+  intros Hq. rewrite Hf. unfold pep_sorted_desc. fold srt. rewrite map_map.
+  apply (pep_nth_map (fun r : Z * Z => f (- fst r)%Z) srt q (0%Z, 0%Z) 0). rewrite pep_srt_length. exact Hq.
+Qed.
+
+Theorem pep_qvality_spec_sec i : (i < n)%nat ->
+  exists v, pep_is_sup f scores (nth i scores 0%Z) v /\ nth i ps 0 = pep_qmin 1 v.
+Proof.
+  intros Hi. destruct (pep_qvality_position i Hi) as (p & Hp & Ep & Eps). rewrite Eps.
+  destruct pep_qvality_lengths as (_ & Hfl & _).
+  unfold pep_qvality_sorted_order, pep_qvality_monotonize.
+  rewrite (pep_nth_map (pep_qmin 1) _ p 0 0) by (rewrite pep_monotonize_simple_length, Hfl; exact Hp).
+  exists (nth p (pep_monotonize_simple true fs) 0). split; [|reflexivity].
+  destruct (pep_cummax_nth fs p ltac:(rewrite Hfl; exact Hp)) as (Hub & q & Hq & Eq). cbv zeta in *.
+  split.
+  - intros s' Hs' Hle. destruct (In_nth _ _ 0%Z Hs') as (i' & Hi' & <-). fold n in Hi'.
+    destruct (pep_srt_pos i' Hi') as (p' & Hp' & Ep').
+    destruct (Nat.le_gt_cases p' p) as [Hpp|Hpp].
+    + specialize (Hub p' Hpp). rewrite (pep_fs_nth p' Hp'), Ep' in Hub. simpl fst in Hub.
+      rewrite Z.opp_involutive in Hub. exact Hub.
+    + pose proof (pep_ss_nth pep_kle srt (0%Z, 0%Z) p p' pep_srt_sorted ltac:(rewrite pep_srt_length; lia)) as Hs.
+      unfold pep_kle in Hs. rewrite Ep, Ep' in Hs. simpl in Hs.
+      assert (nth i' scores 0%Z = nth i scores 0%Z) as -> by lia.
+      specialize (Hub p (Nat.le_refl p)). rewrite (pep_fs_nth p Hp), Ep in Hub. simpl fst in Hub.
+      rewrite Z.opp_involutive in Hub. exact Hub.
+  - assert (q < n)%nat as Hqn by lia.
+    destruct (pep_srt_row q Hqn) as (iq & Hiq & Eqr).
+    exists (nth iq scores 0%Z). split; [apply nth_In; exact Hiq|]. split.
+    + destruct (Nat.eq_dec q p) as [->|Hne].
+      * rewrite Ep in Eqr. injection Eqr as E1 _. lia.
+      * pose proof (pep_ss_nth pep_kle srt (0%Z, 0%Z) q p pep_srt_sorted ltac:(rewrite pep_srt_length; lia)) as Hs.
+        unfold pep_kle in Hs. rewrite Ep, Eqr in Hs. simpl in Hs. lia.
+    + rewrite Eq, (pep_fs_nth q Hqn), Eqr. simpl fst. rewrite Z.opp_involutive. reflexivity.
+Qed.
+End DescOrder.
+
+(* what the harness checks on the recorded spline values: one value per score, equal scores equal values *)
+Definition pep_f_table (f : Z -> Q) (scores : list Z) (fs : list Q) : Prop :=
+  fs = map f (pep_sorted_desc scores).
+
+Theorem pep_qvality_spec scores targets fs ps f :
+  pep_qvality scores targets fs = Ok ps -> pep_f_table f scores fs ->
+  length ps = length scores /\
+  forall i, (i < length scores)%nat ->
+    exists v, pep_is_sup f scores (nth i scores 0%Z) v /\ nth i ps 0 = pep_qmin 1 v.
+Proof.
+  intros H Hf. split; [apply (pep_qvality_out_length scores targets fs ps H)|].
+  intros i Hi. apply (pep_qvality_spec_sec scores targets fs ps H f Hf i Hi).
+Qed.
+
+Theorem pep_qvality_range scores targets fs ps f :
+  pep_qvality scores targets fs = Ok ps -> pep_f_table f scores fs ->
+  (forall s, In s scores -> 0 <= f s) ->
+  forall i, (i < length scores)%nat -> 0 <= nth i ps 0 /\ nth i ps 0 <= 1.
+Proof.
+  intros H Hf Hpos i Hi. destruct (pep_qvality_spec _ _ _ _ _ H Hf) as [_ Hs].
+  destruct (Hs i Hi) as (v & (_ & s' & Is' & _ & Ev) & ->). split; [|apply pep_qmin_le_l].
+  apply pep_qmin_glb; [discriminate|]. rewrite Ev. apply Hpos. exact Is'.
+Qed.
+
+Theorem pep_qvality_monotone scores targets fs ps f :
+  pep_qvality scores targets fs = Ok ps -> pep_f_table f scores fs ->
+  forall i j, (i < length scores)%nat -> (j < length scores)%nat ->
+    (nth i scores 0 <= nth j scores 0)%Z -> nth j ps 0 <= nth i ps 0.
+Proof.
+  intros H Hf i j Hi Hj Hs. destruct (pep_qvality_spec _ _ _ _ _ H Hf) as [_ Hsp].
+  destruct (Hsp i Hi) as (vi & Si & ->). destruct (Hsp j Hj) as (vj & Sj & ->).
+  apply pep_qmin_mono; [apply Qle_refl|]. eapply pep_is_sup_antitone; eassumption.
+Qed.
+
+Theorem pep_qvality_ties scores targets fs ps f :
+  pep_qvality scores targets fs = Ok ps -> pep_f_table f scores fs ->
+  forall i j, (i < length scores)%nat -> (j < length scores)%nat ->
+    nth i scores 0%Z = nth j scores 0%Z -> nth i ps 0 == nth j ps 0.
+Proof.
+  intros H Hf i j Hi Hj Hs.
+  apply Qle_antisym; eapply pep_qvality_monotone; try eassumption; lia.
+Qed.
+
+(* the descending list of scores does not depend on the input order *)
+Lemma pep_sorted_desc_perm scores scores' : Permutation scores scores' -> pep_sorted_desc scores = pep_sorted_desc scores'.
+Proof.
+  intros HP.
+  destruct (pep_sorted_desc_spec scores) as [P1 S1]. destruct (pep_sorted_desc_spec scores') as [P2 S2].
+  assert (map Z.opp (pep_sorted_desc scores) = map Z.opp (pep_sorted_desc scores')) as E.
+  { apply pep_sorted_perm_eq.
+    - apply (pep_ss_map (fun a b => (b <= a)%Z) Z.le Z.opp); [intros a b; lia | exact S1].
+    - apply (pep_ss_map (fun a b => (b <= a)%Z) Z.le Z.opp); [intros a b; lia | exact S2].
+    - apply Permutation_map. eapply Permutation_trans; [exact P1|]. eapply Permutation_trans; [exact HP|]. apply Permutation_sym. exact P2. }
+  apply (f_equal (map Z.opp)) in E. rewrite !map_map in E.
+  rewrite !(map_ext (fun x => (- - x)%Z) (fun x => x)) in E by (intros; lia). rewrite !map_id in E. exact E.
+Qed.
+
+(* aligned whatever the input order: the same PSMs in another order get the same values *)
+Theorem pep_qvality_input_order scores targets fs ps scores' targets' ps' f i j :
+  pep_qvality scores targets fs = Ok ps -> pep_qvality scores' targets' fs = Ok ps' ->
+  pep_f_table f scores fs -> Permutation scores scores' ->
+  (i < length scores)%nat -> (j < length scores')%nat -> nth i scores 0%Z = nth j scores' 0%Z ->
+  nth i ps 0 == nth j ps' 0.
+Proof.
+  intros H H' Hf HP Hi Hj E.
+  assert (pep_f_table f scores' fs) as Hf' by (unfold pep_f_table in *; rewrite <- (pep_sorted_desc_perm _ _ HP); exact Hf).
+  destruct (pep_qvality_spec _ _ _ _ _ H Hf) as [_ Hs]. destruct (pep_qvality_spec _ _ _ _ _ H' Hf') as [_ Hs'].
+  destruct (Hs i Hi) as (v & Sv & ->). destruct (Hs' j Hj) as (w & Sw & ->).
+  rewrite <- E in Sw. apply (pep_is_sup_perm _ _ _ _ _ HP) in Sv.
+  pose proof (pep_is_sup_unique _ _ _ _ _ Sv Sw) as Evw.
+  apply Qle_antisym; apply pep_qmin_mono; try apply Qle_refl; rewrite Evw; apply Qle_refl.
+Qed.
+
+(* on input that is already in descending order (what the pipeline feeds) the un-sorting is the identity:
+   the vector triqler returns is the answer *)
+Theorem pep_qvality_sorted_input scores targets fs :
+  StronglySorted (fun a b => (b <= a)%Z) scores ->
+  length targets = length scores -> length fs = length scores ->
+  pep_qvality scores targets fs = Ok (pep_qvality_sorted_order fs).
+Proof.
+  intros Hs Ht Hfl. unfold pep_qvality.
+  assert (pep_same_length scores targets = true) as -> by (apply pep_same_length_true; lia).
+  assert (pep_same_length scores fs = true) as -> by (apply pep_same_length_true; lia).
+  cbn [negb]. f_equal. unfold pep_desc_order.
+  rewrite pep_sort_id.
+  2:{ apply pep_combine_sorted. apply (pep_ss_map (fun a b => (b <= a)%Z) Z.le Z.opp); [intros a b; lia | exact Hs]. }
+  rewrite pep_map_snd_combine by (rewrite map_length, pep_zseq_length; reflexivity).
+  unfold pep_scatter. rewrite pep_sort_id by (apply pep_combine_sorted, pep_zseq_sorted_le).
+  apply pep_map_snd_combine. rewrite pep_zseq_length.
+  unfold pep_qvality_sorted_order, pep_qvality_monotonize. rewrite map_length, pep_monotonize_simple_length. lia.
+Qed.
+
+(* ... and on other input it is not: a better score can carry the larger value *)
+Theorem pep_qvality_unsorted_refuted :
+  exists (scores : list Z) (f : Z -> Q) (fs : list Q),
+    pep_f_table f scores fs /\ (forall s, 0 <= f s) /\
+    exists i j, (i < length scores)%nat /\ (j < length scores)%nat /\
+      (nth i scores 0 < nth j scores 0)%Z /\
+      nth i (pep_qvality_sorted_order fs) 0 < nth j (pep_qvality_sorted_order fs) 0.
+Proof.
+  exists [1; 2]%Z, (fun s => if (s =? 2)%Z then 1 # 10 else 1 # 2), [1 # 10; 1 # 2].
+  split; [vm_compute; reflexivity|]. split; [intros s; destruct (s =? 2)%Z; discriminate|].
+  exists 0%nat, 1%nat. repeat split; try (simpl; lia); vm_compute; reflexivity.
+Qed.
+
+(* ====================== monotonize_simple, both directions ====================== *)
+Theorem pep_monotonize_simple_spec asc l :
+  length (pep_monotonize_simple asc l) = length l /\
+  (if asc then StronglySorted Qle (pep_monotonize_simple asc l)
+   else StronglySorted (fun a b => b <= a) (pep_monotonize_simple asc l)).
+Proof.
+  split; [apply pep_monotonize_simple_length|]. destruct asc; [apply pep_cummax_sorted | apply pep_cummin_sorted].
+Qed.
